@@ -1,6 +1,7 @@
 import SevenZ.Model.Number
 import SevenZ.Model.BoolVec
 import SevenZ.Model.Utf16
+import SevenZ.Model.Header
 import SevenZ.Lemmas.Number
 import SevenZ.Lemmas.BoolVec
 import SevenZ.Lemmas.Utf16
